@@ -193,7 +193,15 @@ class Builtin2Mixin:
         st = st.copy()
         r = r_of(selfv.term)
         (x,) = self.one_pos(args, 1, 'append')
-        st.LS = z3.Store(st.LS, r, z3.Concat(self.list_seq(st, r), z3.Unit(self.to_term(st, x))))
+        old = self.list_seq(st, r)
+        xt = self.to_term(st, x)
+        new = z3.Concat(old, z3.Unit(xt))
+        st.LS = z3.Store(st.LS, r, new)
+        # element-wise view of the snoc (instances the sequence solver does not derive under quantifiers)
+        i = smt.fresh('ai', smt.Int)
+        st.assume(z3.Length(new) == z3.Length(old) + 1)
+        st.assume(new[z3.Length(old)] == xt)
+        st.assume(z3.ForAll([i], z3.Implies(AND(i >= 0, i < z3.Length(old)), new[i] == old[i])))
         return self.ok(st, self.py_none())
 
     def bm_list_extend(self, st, selfv, args, node):
